@@ -3,7 +3,7 @@ import SLModel.Core.Aggs
 # Core/AggsLegacy — the aggregation mechanism as it was before the repairs
 
 0d5edb4 (thresholds after the merge), a3ebc01 (top_hits window once), 71fb08f (composite
-histogram sources over i64 columns), a754ee4 (calendar quarter on the 31st of May).
+histogram sources over i64 columns), a754ee4 (calendar quarter on the 31st of May), 0b763bf (bounds fill keeps the offset).
 Kept so that the negative witnesses of `Props/C12` remain kernel-checked documentation of the
 original defects.  Import-free apart from `Core/Aggs`; executable; nothing here is run by the
 driver.
@@ -21,7 +21,7 @@ def keysOf (b : BSpec φ κ) (d : Doc φ κ) : List (Key κ) :=
   | .composite srcs _ _ =>
     if srcs.any (fun s => match s with | .hist _ _ false => true | _ => false) then []
     else SL.Aggs.keysOf b d
-  | .dhist f iv offset _ _ hard missing _ =>
+  | .dhist f iv offset _ _ hard missing =>
     (((numVals f (missing.map (fun (m : Int) => (m : Rat))) d).map truncToInt).filter (fun v =>
         match hard with
         | some (lo, hi) => !(decide (v < lo) || decide (hi < v))
@@ -30,7 +30,7 @@ def keysOf (b : BSpec φ κ) (d : Doc φ κ) : List (Key κ) :=
 
 def extraKeys (b : BSpec φ κ) : List (Key κ) :=
   match b with
-  | .dhist _ iv offset _ ext hard _ ideal =>
+  | .dhist _ iv offset _ ext hard _ =>
     match ext.or hard with
     | some (lo, hi) =>
       match dateBucket true iv offset lo, dateBucket true iv offset hi with
@@ -38,7 +38,7 @@ def extraKeys (b : BSpec φ κ) : List (Key κ) :=
         let start := if b < a then b else a
         let stop := if b < a then a else b
         let minStep : Int := match iv with | .fixed step => step | .calendar _ => msPerDay
-        (fillFrom (fillStep iv offset ideal) start stop (((stop - start) / minStep).toNat + 2)).map Key.num
+        (fillFrom (legacyFillStep iv) start stop (((stop - start) / minStep).toNat + 2)).map Key.num
       | _, _ => []
     | none => []
   | b => SL.Aggs.extraKeys b
@@ -66,7 +66,7 @@ def finishSeg (b : BSpec φ κ) (bs : Buckets κ) : Buckets κ :=
   | .rare _ maxDoc size =>
     keepTop rareLt size (bs.filter (fun x => decide (0 < x.2.1) && decide (x.2.1 ≤ maxDoc)))
   | .hist _ _ _ minDoc _ _ _ => bs.filter (fun x => decide (minDoc ≤ x.2.1))
-  | .dhist _ _ _ minDoc _ _ _ _ => bs.filter (fun x => decide (minDoc ≤ x.2.1))
+  | .dhist _ _ _ minDoc _ _ _ => bs.filter (fun x => decide (minDoc ≤ x.2.1))
   | _ => bs
 
 /-- the old rare_terms merge arm: `max_doc_count` and `size` at every merge step -/
